@@ -3,7 +3,8 @@
 
 Each patch is applied to a scratch copy of /repo/include in a fresh mkdtemp directory (outside /repo and /verif,
 removed afterwards) and the checks are run with --root <scratch>; nothing is executed from the patched library.
-usage: python3-vt tools/seeded.py [seed-id ...] [--all-props]
+usage: python3-vt tools/seeded.py [seed-id ...] [--target-only] [--dir=benign]
+(--dir=benign: the behaviour-preserving refactorings kept under /verif/benign; there every check is expected to pass)
 Prints, per seed, which properties report a violation (and which rules), which pass, which are analysis-broken.
 """
 import json
@@ -18,8 +19,14 @@ VERIF = os.path.dirname(os.path.dirname(os.path.abspath(__file__)))
 READY = [l.strip() for l in open(os.path.join(VERIF, "tools", "ready.txt")) if l.strip() and not l.startswith("#")]
 
 
+DIR = "seeded"
+for a in sys.argv[1:]:
+    if a.startswith("--dir="):
+        DIR = a.split("=", 1)[1]
+
+
 def run_seed(sid, props):
-    d = os.path.join(VERIF, "seeded", sid)
+    d = os.path.join(VERIF, DIR, sid)
     patch = os.path.join(d, "patch.diff")
     tmp = tempfile.mkdtemp(prefix="stxseed-")
     res = {}
@@ -53,9 +60,9 @@ def run_seed(sid, props):
 
 def main():
     args = [a for a in sys.argv[1:] if not a.startswith("--")]
-    seeds = args or sorted(os.listdir(os.path.join(VERIF, "seeded")))
+    seeds = args or sorted(x for x in os.listdir(os.path.join(VERIF, DIR)) if os.path.isdir(os.path.join(VERIF, DIR, x)))
     for sid in seeds:
-        meta_p = os.path.join(VERIF, "seeded", sid, "meta.json")
+        meta_p = os.path.join(VERIF, DIR, sid, "meta.json")
         meta = json.load(open(meta_p)) if os.path.exists(meta_p) else {}
         target = meta.get("property")
         props = ([target] if target in READY else []) + [p for p in READY if p != target]
@@ -71,7 +78,7 @@ def main():
             sid, target, json.dumps(viol) if viol else "none", broken or "none", sum(1 for r in res.values() if r["rc"] == 0)))
         if target in res:
             print("   target check %s: rc=%d %s" % (target, res[target]["rc"], res[target]["first"]))
-        out = os.path.join(VERIF, "seeded", sid, "detection.json")
+        out = os.path.join(VERIF, DIR, sid, "detection.json")
         json.dump(res, open(out, "w"), indent=1, sort_keys=True)
 
 
